@@ -183,7 +183,9 @@ Section World.
   Variable loader : Z -> Z -> name -> lres.
   Variable evict_first : bool.
   Variable builtin : rk -> reg.                              (* defaults.rs: the built-in registries *)
-  Variable render : tmpl -> (rk -> Z -> option Z) -> obs.    (* Template::render with a fixed context *)
+  Variable render : Z -> tmpl -> (rk -> Z -> option Z) -> obs.
+                                       (* Template::render / render_captured_to: render call (context, sink, thread),
+                                          compiled template, registries *)
 
   Record env := { st : store tmpl; fh : Z; th : Z; gh : Z }.   (* templates + three Arc handles *)
 
@@ -213,21 +215,21 @@ Section World.
 
   Definition regs_of (h : heap) (e : env) : rk -> Z -> option Z := fun k nm => a_get (view h (handle e k)) nm.
 
-  Definition show_get (h : heap) (e : env) (r : gres tmpl) : obs :=
-    match r with GOk t => render t (regs_of h e) | GErr c => o_err c end.
+  Definition show_get (h : heap) (e : env) (rc : Z) (r : gres tmpl) : obs :=
+    match r with GOk t => render rc t (regs_of h e) | GErr c => o_err c end.
 
   Definition show_sout (h : heap) (e : env) (o : sout tmpl) : obs :=
     match o with
     | SUnit => o_unit
     | SAdd None => o_unit
     | SAdd (Some c) => o_err c
-    | SGot r => show_get h e r
+    | SGot r => show_get h e 0 r
     end.
 
-  (* what rendering [n] gives at time [now], observed on a throw-away clone of the environment
+  (* what render call [rc] of [n] gives at time [now], observed on a throw-away clone of the environment
      (the clone's memo is discarded; its three reference-count increments are undone by its drop) *)
-  Definition observe (h : heap) (e : env) (n : name) (now : Z) : obs :=
-    show_get h e (snd (get tmpl compile loader (st e) n now)).
+  Definition observe (h : heap) (e : env) (rc : Z) (n : name) (now : Z) : obs :=
+    show_get h e rc (snd (get tmpl compile loader (st e) n now)).
 
   Definition adhoc_mode (how c : Z) : cmode :=
     if how <? 4 then MTemplate c else if how <? 6 then MExpr else MAnalysis.
@@ -259,9 +261,13 @@ Section World.
            source under the current template_config into a temporary template; compile_expression(_owned)
            compiles an expression; nothing is looked up in or written to the store, whatever the name *)
         (w, match compile (adhoc_mode how (cfg _ (st (cur w)))) x with
-            | COk t => render t (regs_of (hp w) (cur w))
+            | COk t => render 0 t (regs_of (hp w) (cur w))
             | CErr c => o_err c
             end)
+    | WRender rc n now =>
+        (* a render keeps all its state in its own State/Vm; nothing of it outlives the call *)
+        let (s', r) := get tmpl compile loader (st (cur w)) n now in
+        ({| hp := hp w; cur := set_store (cur w) s'; other := other w |}, show_get (hp w) (cur w) rc r)
     | WRenderBadCtx n now panics =>
         let (s', r) := get tmpl compile loader (st (cur w)) n now in
         ({| hp := hp w; cur := set_store (cur w) s'; other := other w |},
